@@ -100,9 +100,15 @@ impl<T: Qcow2IoOps> Qcow2Dev<T> {
             return Ok(0);
         }
 
-        t.set_offset(Some(off));
         let buf = unsafe { std::slice::from_raw_parts_mut(t.as_mut_ptr(), t.byte_size()) };
-        self.call_read(off, buf).await
+        let res = self.call_read(off, buf).await;
+        // The offset marks the table as loaded. If the read failed it must
+        // not look loaded: the next qcow2_prep_io() would skip it and go on
+        // with an all-zero table.
+        if res.is_ok() {
+            t.set_offset(Some(off));
+        }
+        res
     }
 
     pub(crate) async fn load_refcount_table(&self) -> Qcow2Result<usize> {
